@@ -250,7 +250,8 @@ Definition supported (g : goval) : Prop := supportedb g = true.
 (* ---- "returning a parameter reproduces the supplied data": the JSON text of
    RETURN @p, decoded again (numbers without fraction/exponent as integers,
    others as binary64), against the expected value.  Dates and binaries are
-   strings in JSON; their exact text is C09's subject, not compared here. *)
+   strings in JSON (a nil []byte is null); their exact text is C09's subject,
+   not compared here. *)
 Fixpoint json_match (e j : value) {struct e} : bool :=
   match e, j with
   | VNone, VNone => true
@@ -261,6 +262,7 @@ Fixpoint json_match (e j : value) {struct e} : bool :=
   | VStr a, VStr b => bytes_eqb a b
   | VDate _ _ _, VStr _ => true
   | VBin _, VStr _ => true
+  | VBin [], VNone => true                 (* a nil []byte is null in JSON *)
   | VArr l, VArr l' =>
       (fix go (l : list value) (l' : list value) : bool :=
          match l, l' with
